@@ -454,7 +454,9 @@ impl<T: BitWrite> PackedWrite for T {
             self.write_bits_with_offset(&bytes[..], offset_bits)?;
             Ok(())
         } else {
-            let offset = value.leading_zeros() as u64 / 8;
+            // ITU-T X.691 | ISO/IEC 8825-2:2015, chapter 11.3.6: the minimum number of octets,
+            // but at least one (zero is encoded as a single zero octet)
+            let offset = (value.leading_zeros() as u64 / 8).min(7);
             let len = std::mem::size_of::<u64>() as u64 - offset;
             let bytes = value.to_be_bytes();
             self.write_length_determinant(None, None, len)?;
